@@ -22,7 +22,8 @@ EXPLANATION = (
     "(R7) the collector honours every fresh marker: each listed *.inflight entry that is not stale reaches "
     "protected.add(<target>), and the target of a marker whose payload names a path is that path."
     " R1 requires the hook that runs to be the writer's OWN pre_write_hook parameter (a helper's defaulted None does not count)."
-    " (R8) who-may-delete census (C09.R3); (R9) the collector's metadata read is never served from a cache (C10.R7); (R10) census of data-file production sites: marker registered first, failure propagates, one uuid per loop iteration.")
+    " (R8) who-may-delete census (C09.R3); (R9) the collector's metadata read is never served from a cache (C10.R7); (R10) census of data-file production sites: marker registered first, failure propagates, one uuid per loop iteration."
+    ' (R11) a file that vanished between queueing and commit fails the commit: commit-time validate_data_files dominates the manifest (shared with C11.R8).')
 NOT_DECIDED = "grace-period arithmetic versus run duration; the interleavings themselves"
 
 GC = "garbage_collector.GarbageCollector"
